@@ -780,6 +780,9 @@ fn run(ctx: &ShardCtx, rep: &mut Report) {
             Err(format!("panic: {}", p.join(" | ")))
         }
     });
+    // hand-over variant: the disposition is applied while the sending task is between handing the transfer
+    // to the session and continuing (schedule point)
+    crate::checks::c02r::run(ctx, rep);
     // (C) two real endpoints: outcome per delivery (reuses the C01 harness)
     let open = ctx.open_findings.clone();
     pt_run(ctx, rep, "duo", ctx.budget(16_000, 800_000), c01::case_strategy(), |c, obs| {
@@ -815,6 +818,7 @@ fn replay(variant: &str, case_json: &Json) -> Result<(), String> {
             let c: CaseB = serde_json::from_value(case_json.clone()).map_err(|e| format!("bad case: {e}"))?;
             run_sync(c.tokio_seed, run_b(&c)).map(|_| ())
         }
+        "handover" => crate::checks::c02r::replay(case_json),
         _ => {
             let c: c01::Case = serde_json::from_value(case_json.clone()).map_err(|e| format!("bad case: {e}"))?;
             let open = open_ids_for("C02");
